@@ -2,6 +2,8 @@ package rules
 
 import (
 	"fmt"
+	"go/token"
+	"strings"
 
 	"golang.org/x/tools/go/ssa"
 
@@ -105,6 +107,239 @@ func rulePar15(c *Ctx) {
 					c.Bad(key, c.Pos(g), fmt.Sprintf("the function can return at %s without having waited for this goroutine (no (*sync.WaitGroup).Wait, nor a csvq function that waits on all its paths, lies on that path): the caller goes on — clears and pools the scope, publishes or reuses the records — while the worker still reads and writes them", c.Pos(leak)))
 				} else {
 					c.Ok(key, c.Pos(g), "every path to a return passes a synchronous Wait")
+				}
+			}
+		}
+	}
+	c.Sites += n
+}
+
+// R-PAR-16: the spawner, not the goroutine, registers it with the WaitGroup.
+// R-CAN-5: a parallel stage that stops early on cancellation says so.
+
+func init() {
+	Register(&Rule{ID: "R-PAR-16", Props: []string{"C12", "C13"}, Floor: 8,
+		Doc:      "WaitGroup.Add happens before the go statement: no function started by a go statement of csvq — a closure, a named function or a method value, resolved statically, and the csvq functions it calls directly — calls (*sync.WaitGroup).Add or a csvq wrapper of it (GoroutineTaskManager.Add) for the group its spawner waits on; the registration belongs to the spawner. A goroutine that registers itself races with the spawner's Wait: Wait can see a zero counter and return before any worker has run — an OUTER JOIN over several workers then returns no rows, or some, depending on the schedule. Decides where Add is called, not that Add and Done are balanced",
+		Controls: []string{"CtlWorkerRegistersItself"},
+		Run:      rulePar16})
+	Register(&Rule{ID: "R-CAN-5", Props: []string{"C10", "C01", "C11", "C12"}, Floor: 6,
+		Doc:      "a parallel stage that stops early on cancellation reports it: for every go statement whose goroutine polls the context (a branch on ctx.Err() != nil that leaves the work loop), either (1) the cancelled edge records an error where the spawner looks — a store of an error into a variable shared with the spawner, or a call of a csvq SetError method — or (2) every path in the spawner from the go statement to a return that may report success passes a call of ctx.Err(). Otherwise a SIGINT / SIGTERM during the stage makes the workers return silently and the stage hands back a half-filled result with a nil error: COMMIT then writes a JSON table with holes over the old file. Decides that the cancellation is turned into an error, not how quickly the workers notice it",
+		Controls: []string{"CtlCancelledStageReportsSuccess"},
+		Run:      ruleCan5})
+}
+
+// goTargets: the functions a go statement starts (static callee, or the closures a local function value may hold)
+func goTargets(g *ssa.Go) []*ssa.Function {
+	if f := g.Common().StaticCallee(); f != nil {
+		return []*ssa.Function{f}
+	}
+	var out []*ssa.Function
+	for _, o := range core.Origins(g.Common().Value, false) {
+		switch x := o.(type) {
+		case *ssa.MakeClosure:
+			if f, ok := x.Fn.(*ssa.Function); ok {
+				out = append(out, f)
+			}
+		case *ssa.Function:
+			out = append(out, x)
+		}
+	}
+	return out
+}
+
+func rulePar16(c *Ctx) {
+	// adders: csvq functions that call WaitGroup.Add and start no goroutine themselves
+	adder := map[*ssa.Function]bool{}
+	for _, fn := range c.P.SrcFuncs() {
+		hasAdd, hasGo := false, false
+		for _, b := range fn.Blocks {
+			for _, in := range b.Instrs {
+				if _, ok := in.(*ssa.Go); ok {
+					hasGo = true
+				}
+				if call, ok := in.(ssa.CallInstruction); ok && c.P.CalleeName(call) == "(*sync.WaitGroup).Add" {
+					hasAdd = true
+				}
+			}
+		}
+		if hasAdd && !hasGo {
+			adder[fn] = true
+		}
+	}
+	n := 0
+	for _, fn := range c.P.SrcFuncs() {
+		k := 0
+		for _, b := range fn.Blocks {
+			for _, in := range b.Instrs {
+				g, ok := in.(*ssa.Go)
+				if !ok {
+					continue
+				}
+				k++
+				n++
+				c.Touch(fn)
+				key := c.KeyAt(fn, fmt.Sprintf("go statement #%d: the goroutine does not register itself", k))
+				var bad string
+				seen := map[*ssa.Function]bool{}
+				var scan func(w *ssa.Function, depth int)
+				scan = func(w *ssa.Function, depth int) {
+					if w == nil || seen[w] || w.Blocks == nil || depth > 1 || bad != "" {
+						return
+					}
+					seen[w] = true
+					for _, call := range core.Calls(w) {
+						if _, isGo := call.(*ssa.Go); isGo {
+							continue
+						}
+						name := c.P.CalleeName(call)
+						callee := call.Common().StaticCallee()
+						if name == "(*sync.WaitGroup).Add" || callee != nil && adder[callee] && !adder[w] {
+							bad = fmt.Sprintf("the started function %s calls %s at %s", c.P.Name(w), ctxCalleeLabel(c, call), c.Pos(call))
+							return
+						}
+						if callee != nil && inModule(callee) && !adder[callee] {
+							scan(callee, depth+1)
+						}
+					}
+				}
+				for _, w := range goTargets(g) {
+					scan(w, 0)
+				}
+				if bad != "" {
+					c.Bad(key, c.Pos(g), bad+": the registration races with the spawner's Wait, which may find the counter at zero and return before the worker has started — the stage's result is then empty or partial, depending on the schedule")
+				} else {
+					c.Ok(key, c.Pos(g), "no Add in the started function")
+				}
+			}
+		}
+	}
+	c.Sites += n
+}
+
+func isCtxErrCall(v ssa.Value) bool {
+	call, ok := v.(*ssa.Call)
+	if !ok || !call.Common().IsInvoke() || call.Common().Method.Name() != "Err" {
+		return false
+	}
+	return isContextType(call.Common().Value.Type())
+}
+
+func ruleCan5(c *Ctx) {
+	n := 0
+	for _, fn := range c.P.SrcFuncs() {
+		k := 0
+		for _, b := range fn.Blocks {
+			for _, in := range b.Instrs {
+				g, ok := in.(*ssa.Go)
+				if !ok {
+					continue
+				}
+				// poll sites of the started functions (and the csvq functions they call directly)
+				type poll struct {
+					w         *ssa.Function
+					iff       *ssa.If
+					cancelled *ssa.BasicBlock
+				}
+				var polls []poll
+				seen := map[*ssa.Function]bool{}
+				var collect func(w *ssa.Function, depth int)
+				collect = func(w *ssa.Function, depth int) {
+					if w == nil || seen[w] || w.Blocks == nil || depth > 1 {
+						return
+					}
+					seen[w] = true
+					for _, wb := range w.Blocks {
+						if len(wb.Instrs) == 0 {
+							continue
+						}
+						iff, ok := wb.Instrs[len(wb.Instrs)-1].(*ssa.If)
+						if !ok {
+							continue
+						}
+						bo, ok := iff.Cond.(*ssa.BinOp)
+						if !ok || bo.Op != token.NEQ && bo.Op != token.EQL {
+							continue
+						}
+						if !(isCtxErrCall(bo.X) && core.IsNilConst(bo.Y) || isCtxErrCall(bo.Y) && core.IsNilConst(bo.X)) {
+							continue
+						}
+						succ := 0
+						if bo.Op == token.EQL {
+							succ = 1
+						}
+						polls = append(polls, poll{w, iff, wb.Succs[succ]})
+					}
+					for _, call := range core.Calls(w) {
+						if callee := call.Common().StaticCallee(); callee != nil && inModule(callee) {
+							collect(callee, depth+1)
+						}
+					}
+				}
+				for _, w := range goTargets(g) {
+					collect(w, 0)
+				}
+				if len(polls) == 0 {
+					continue
+				}
+				k++
+				n++
+				c.Touch(fn)
+				key := c.KeyAt(fn, fmt.Sprintf("go statement #%d: a cancelled worker is reported", k))
+				// (1) every cancelled edge records an error
+				recorded := true
+				for _, p := range polls {
+					rec := false
+					core.WalkFrom(p.iff, func(x ssa.Instruction) bool {
+						if !core.RegionFrom(p.cancelled)[x.Block()] {
+							return false
+						}
+						switch y := x.(type) {
+						case *ssa.Store:
+							if core.IsErrorType(y.Val.Type()) && !core.IsNilConst(y.Val) {
+								if _, local := y.Addr.(*ssa.Alloc); !local {
+									rec = true
+								}
+							}
+						case ssa.CallInstruction:
+							if f := y.Common().StaticCallee(); f != nil && strings.Contains(f.Name(), "SetError") {
+								rec = true
+							}
+						}
+						return !rec
+					})
+					if !rec {
+						recorded = false
+					}
+				}
+				if recorded {
+					c.Ok(key, c.Pos(g), fmt.Sprintf("%d poll site(s); every cancelled edge records an error for the spawner", len(polls)))
+					continue
+				}
+				// (2) the spawner tests ctx.Err() before every success return
+				var leak ssa.Instruction
+				res := fn.Signature.Results()
+				hasErr := res.Len() > 0 && core.IsErrorType(res.At(res.Len()-1).Type())
+				if hasErr {
+					core.WalkFrom(g, func(x ssa.Instruction) bool {
+						if call, ok := x.(*ssa.Call); ok && isCtxErrCall(call) {
+							return false
+						}
+						if r, ok := x.(*ssa.Return); ok && leak == nil && !errorExit(c, r.Block()) {
+							ev := r.Results[len(r.Results)-1]
+							if k, isConst := ev.(*ssa.Const); !isConst || k.Value == nil {
+								leak = r
+							}
+						}
+						return true
+					})
+				}
+				switch {
+				case !hasErr:
+					c.Bad(key, c.Pos(g), "the workers stop early when the context is cancelled, but the starting function has no error result through which it could say so")
+				case leak != nil:
+					c.Bad(key, c.Pos(g), fmt.Sprintf("the workers leave their loop when ctx.Err() != nil without recording an error, and the return at %s can report success without the starting function having looked at ctx.Err(): a cancelled stage hands back a partially filled result as if it were complete", c.Pos(leak)))
+				default:
+					c.Ok(key, c.Pos(g), fmt.Sprintf("%d poll site(s); every success return of the spawner lies behind a test of ctx.Err()", len(polls)))
 				}
 			}
 		}
